@@ -102,6 +102,23 @@ pub fn alphabet_c12() -> Vec<Ev> {
     v
 }
 
+/// C12 "the tracked set only ever shrinks through expiry": accounting letters of two aircraft interleaved with expiry
+/// calls while virtual time advances one second per event (so a record is 0..depth seconds old when prune runs)
+pub fn alphabet_c12_expiry() -> Vec<Ev> {
+    let p1 = (35.2, -80.2);
+    let mut v = vec![];
+    v.push(fr("a1.identAAA", enc::es_frame(17, 5, A1, enc::me_ident(4, 0, "AAA"))));
+    v.push(fr("a1.vel", enc::es_frame(17, 5, A1, enc::me_vel_kt(100, -200, 640))));
+    v.extend(pos_letters("a1.p1", A1, p1, 10000));
+    v.push(fr("a1.tc28", enc::es_frame(17, 5, A1, 28u64 << 51 | 1 << 48 | 0x1200 << 29)));
+    v.push(fr("a2.identBBB", enc::es_frame(17, 5, A2, enc::me_ident(2, 3, "BBB"))));
+    v.extend(pos_letters("a2.p1", A2, p1, 11000));
+    v.push(fr("nonES.df11", enc::df11_frame(5, A1, 0)));
+    v.push(Ev::Prune(2));
+    v.push(Ev::Prune(3));
+    v
+}
+
 pub fn alphabet_c13(rx: (f64, f64), range: f64, tier: Tier) -> Vec<Ev> {
     let mut v = vec![];
     // flight F1: points 2 km apart starting 20 km from the receiver
